@@ -325,7 +325,7 @@ def resolver_resolve(
                 try:
                     values[param_name] = deserializer(kwargs[alias])
                 except ValidationError as err:
-                    errors[aliaser(param_name)] = err
+                    errors[alias] = err
             elif opt_param and required:
                 values[param_name] = None
 
